@@ -72,8 +72,9 @@ where
                     break;
                 },
                 Err(err) => {
-                    error!("ObserverWorker unexpected error: {:?}", err);
-                    panic!("ObserverWorker unexpected error: {:?}", err);
+                    // A failed request (e.g. close request without active blob, failed blob creation)
+                    // must not stop the worker: further rotation, dumps and syncs depend on it
+                    error!("ObserverWorker error, request skipped: {:?}", err);
                 }
             }
         }
